@@ -210,6 +210,78 @@ fn abandoned_pull_scenario() -> ScenFn {
     })
 }
 
+/// Like `abandoned_pull_scenario`, but whatever becomes available afterwards is pulled AND acknowledged by a second
+/// consumer: an acknowledged message must never come back (C02), every message is delivered at least once (nothing is
+/// lost with the abandoned consumer) and the lease oracle holds for what is seen.
+fn abandoned_pull_ack_scenario() -> ScenFn {
+    scen!(|cx| {
+        let a = cx.api.clone();
+        must!(cx, "setup:create-topic", { let a = a.clone(); async move { a.create_topic(T0).await } });
+        must!(cx, "setup:create-sub", { let a = a.clone(); async move { a.create_sub(S0, T0, 10, None).await } });
+        let ids = must!(cx, "setup:publish", { let a = a.clone(); async move { a.publish(T0, vec![(b"m".to_vec(), vec![]), (b"n".to_vec(), vec![]), (b"o".to_vec(), vec![])]).await } });
+        let kind = cx.choose("victim", 4);
+        let k = cx.choose("abandon-after-steps", 8);
+        let a2 = a.clone();
+        let h = cx.spawn("client:0-victim", async move {
+            match kind {
+                0 => { let _ = a2.pull(S0, 10, true).await; }
+                1 => { let _ = a2.pull(S0, 1, false).await; }
+                2 => { let _ = a2.pull(S0, 2, true).await; }
+                _ => {
+                    let (tx, r) = a2.streaming_pull(first_stream_req(S0, 10)).await;
+                    if let Ok(mut st) = r { let _keep = tx; while let Ok(Some(_)) = st.message().await {} }
+                }
+            }
+        });
+        if k < 7 {
+            tryv!(cx.quiesce_until_polls("client:0-victim", 1).await);
+            tryv!(cx.run_steps(k as u32).await);
+        } else {
+            tryv!(cx.quiesce().await);
+        }
+        cx.abort_now(&h).await;
+        tryv!(cx.quiesce().await);
+        let mut acked: std::collections::BTreeMap<String, i64> = Default::default();
+        let mut seen: std::collections::BTreeSet<String> = Default::default();
+        for t in [1_000i64, 5_000, 10_000 + SLACK_MS, 15_000 + 2 * SLACK_MS, 21_000, 26_000, 32_000, 43_000] {
+            tryv!(cx.advance_to_ms(t).await);
+            let got = tryv!(cx.settle("client:1-pull", { let a = a.clone(); async move { a.pull(S0, 10, true).await } }).await);
+            let got = match got { Ok(v) => v, Err(c) => return ScenarioOut::viol("abandoned-pull-ack/pull-failed", format!("{:?}", c)) };
+            for m in &got {
+                if let Some(at) = acked.get(&m.msg_id) {
+                    return ScenarioOut::viol("abandoned-pull-ack/delivered-again-after-ack", format!("victim={} abandoned after {} steps: message {} was acknowledged (OK) at {} ms and delivered again at {} ms", kind, k, m.msg_id, at, t));
+                }
+                seen.insert(m.msg_id.clone());
+            }
+            if !got.is_empty() {
+                let idsx: Vec<String> = got.iter().map(|m| m.ack_id.clone()).collect();
+                let r = tryv!(cx.settle("client:1-ack", { let a = a.clone(); async move { a.ack(S0, idsx).await } }).await);
+                if r.is_err() {
+                    return ScenarioOut::viol("abandoned-pull-ack/ack-failed", format!("{:?}", r));
+                }
+                for m in &got {
+                    acked.insert(m.msg_id.clone(), t);
+                }
+            }
+        }
+        for id in &ids {
+            if !seen.contains(id) {
+                return ScenarioOut::viol("abandoned-pull-ack/lost", format!("victim={} abandoned after {} steps: message {} was never delivered to the second consumer within 43 s", kind, k, id));
+            }
+        }
+        let st = tryv!(cx.stats(S0).await);
+        match st {
+            Some(s) if s.backlog == 0 && s.outstanding == 0 => {}
+            other => return ScenarioOut::viol("abandoned-pull-ack/residue", format!("victim={} abandoned after {} steps: everything was acknowledged, yet the subscription holds {:?}", kind, k, other)),
+        }
+        ScenarioOut::ok(format!("victim={} k={}", kind, k))
+    })
+}
+
+pub fn abandoned_pull_ack_unit(thorough: bool) -> Unit {
+    explore_unit("crash/abandoned-pull-then-ack", "a Pull / blocking Pull / StreamingPull whose caller disappears k scheduler steps after its first poll (every k); a second consumer then pulls and acknowledges whatever is available at 1 s, 5 s, 10.1 s, ... 43 s: nothing acknowledged comes back, every message arrives, nothing is left over", Bounds::new(if thorough { 2 } else { 1 }), ExecCfg::default(), abandoned_pull_ack_scenario())
+}
+
 pub fn units(thorough: bool) -> Vec<Unit> {
     use COp::*;
     let d = if thorough { 5 } else { 3 };
@@ -233,6 +305,7 @@ pub fn units(thorough: bool) -> Vec<Unit> {
         v.push(explore_unit(format!("sched-expiry/{}", n), format!("{:?}, then the clock crosses three ack deadlines while the consumers keep waiting", p), Bounds::new(d - 1), ExecCfg::default(), scenario("lease-expiry", p, true)));
     }
     v.push(explore_unit("crash/abandoned-pull", "a Pull / blocking Pull / StreamingPull whose caller disappears after k polls (every k), then pulls at 5 s, 10.1 s, 15.2 s, 21 s, 26 s: lease oracle over what they receive", Bounds::new(if thorough { 2 } else { 1 }), ExecCfg::default(), abandoned_pull_scenario()));
+    v.push(abandoned_pull_ack_unit(thorough));
     v.push(explore_unit(
         "sched/push+pull",
         "push dispatch (slow / failing endpoint answers enumerated) and a polling pull consumer on the same subscription",
